@@ -146,7 +146,14 @@ def _dynamic_registration_pass(world, items, rng):
   orders.append(extra)
   # one of the modules is imported by the parsed text itself (a recorded import), the others are added by config_str
   mods = sorted(set(world.originals[sel].__module__ for (_, sel, _), _ in items if sel in world.originals))
-  pre = ENABLE + ('import %s\n' % mods[-1] if len(mods) >= 2 and world.pool_seed % 2 else '')
+  pre = ENABLE
+  if len(mods) >= 2 and world.pool_seed % 2:
+    # ... a dotted module under an alias equal to its last component (`import n.m as m`), a plain one as it is
+    dotted = [m for m in mods if '.' in m]
+    if dotted and world.pool_seed % 4 == 1:
+      pre += 'import %s as %s\n' % (dotted[-1], dotted[-1].split('.')[-1])
+    else:
+      pre += 'import %s\n' % mods[-1]
   for order in orders:
     gin.clear_config()
     try:
